@@ -1,10 +1,69 @@
 import Driver.Common
-/-! C07 driver (stub: answers bad-op until the property's model is wired in). -/
-open Driver
+import Sourmash.Model.Datasets
+import Sourmash.Model.Index
+import Sourmash.Spec.Index
+/-! C07 driver: counters and threshold searches of the three index types over one collection.
+Request grammar: harness/src/bin/c07.rs. -/
+open Driver RevIdx
 
-def stepC07 (s : Unit) (ws : List String) : Unit × Resp :=
+namespace C07
+
+structure St where
+  C : List (List Nat) := []
+  mem : Option (H2C × Colors) := none
+  disk : Db := {}
+
+def parseColl (s : String) : List (List Nat) := (s.splitOn ";").map natList
+
+def showCounter (c : List (Nat × Nat)) : String :=
+  if c.isEmpty then "-" else ",".intercalate (c.map (fun (i, n) => s!"{i}:{n}"))
+
+def showMatches (m : List (Nat × Nat)) : String := s!"{showCounter m} ordered"
+
+partial def balanced : List Nat → RTree
+  | [] => .ident
+  | [d] => .leaf d
+  | ds => .node (balanced (ds.take (ds.length / 2))) (balanced (ds.drop (ds.length / 2)))
+
+def scoreBits (size qsize : Nat) : Nat := (Float.ofNat size / Float.ofNat qsize).toBits.toNat
+
+def step (st : St) (ws : List String) : St × Resp :=
   match ws with
-  | "case" :: _ => (s, { model := "ok" })
-  | _ => (s, { model := "bad-op" })
+  | ["case", _, "coll", s] =>
+    let C := parseColl s
+    ({ C := C, mem := (balanced (List.range C.length)).eval C,
+       disk := createDb roaringCodec C [] (chunkGrouping 3 2 false) }, { model := "ok" })
+  | "case" :: _ => ({}, { model := "ok" })
+  | ["cnt", kind, q] =>
+    let Q := natList q
+    let m := match kind with
+      | "lin" => showCounter (linearCounter st.C Q)
+      | "mem" => match st.mem with
+        | some r => showCounter (memCounter r Q)
+        | none => "PANIC"
+      | _ => showCounter (diskCounter roaringCodec st.disk Q)
+    (st, { model := m, spec := showCounter (refCounter st.C Q) })
+  | ["search", kind, q, t] =>
+    let Q := natList q
+    let t := t.toNat!
+    let m := match kind with
+      | "lin" => showMatches (linearSearch (linearCounter st.C Q) t)
+      | "mem" => match st.mem with
+        | some r => showMatches (linearSearch (memCounter r Q) t)
+        | none => "PANIC"
+      | _ => showMatches (matchesFromCounter (diskCounter roaringCodec st.disk Q) t)
+    -- spec: the entries of the exact counter meeting the threshold, by (count desc, id)
+    (st, { model := m, spec := showMatches (mostCommon (refMatches (refCounter st.C Q) t)) })
+  | ["capi", q, num, k, _] =>
+    let Q := natList q
+    let thr := findThreshold num.toNat! k.toNat! Q.length
+    let withScore (l : List (Nat × Nat)) := l.map (fun (i, n) => (i, scoreBits n Q.length))
+    let m := match st.mem with
+      | some r => showMatches (withScore (linearSearch (memCounter r Q) thr))
+      | none => "PANIC"
+    (st, { model := m, spec := showMatches (withScore (mostCommon (refMatches (refCounter st.C Q) thr))) })
+  | _ => (st, { model := "bad-op" })
 
-def main : IO Unit := Driver.run () stepC07
+end C07
+
+def main : IO Unit := Driver.run ({} : C07.St) C07.step
